@@ -699,7 +699,7 @@ def py_partition(conds, W, weakly=False):
 # implementation side
 # --------------------------------------------------------------------------------------
 
-def make_bb(names, keyed, name="kb", sig=None):
+def make_bb(names, keyed, name="kb", sig=None, alias=False):
     """BeliefBase with the given keys (programmatic construction, as in the BeliefBase docstring)"""
     from inference.belief_base import BeliefBase
     from inference.conditional import Conditional
@@ -708,7 +708,7 @@ def make_bb(names, keyed, name="kb", sig=None):
     seen = {}
     for k, c in keyed:
         sig_ = json.dumps([c[0], c[1]])
-        if sig_ in seen and zlib.crc32(sig_.encode()) % 2 == 0:
+        if alias and sig_ in seen and zlib.crc32(sig_.encode()) % 2 == 0:
             # a conditional listed twice may be the very same Conditional object under two keys (a base assembled from a pool)
             d[k] = seen[sig_]
             continue
@@ -734,7 +734,7 @@ def impl_answers(names, keyed_base, keyed_queries, system, weakly=False, pmaxsat
     from inference.inference_manager import InferenceManager
 
     try:
-        bb = make_bb(names, keyed_base, sig=sig)
+        bb = make_bb(names, keyed_base, sig=sig, alias=True)     # answers do not depend on object identity; partitions of OBJECTS would
         qs = make_queries(names, keyed_queries)
         with warnings.catch_warnings():
             warnings.simplefilter("ignore")
